@@ -6,14 +6,23 @@ type OwnEngine struct{}
 
 func propSpecs() []PropSpec {
 	return []PropSpec{
-		{ID: "C03", Rules: []string{"T-P1", "T-P2", "T-P3", "T-P4", "T-WS", "T-PAREN"},
-			Explanation: "Tables: the precedence table, the Pratt comparison, every right binding power, the projection-stop threshold, whitespace arm and parenthesis clause are evaluated from the source and compared with the specification's precedence order.",
-			NotDecided:  "that each nud/led assembles the right node for its tokens (partly S-SHAPE)"},
-		{ID: "C04", Rules: []string{"E-DISC", "S-EMPTY", "S-SHAPE", "P-LISTS", "P-PARSE", "T-TOKENS", "T-P1"},
-			Explanation: "ErrDisc on lexer/parser, no (empty node, nil) return, list-loop event languages, Parse ends at EOF, token tables agree.",
-			NotDecided:  "language equality as a whole: slice-bracket grammar, completeness of nud/led acceptance sets"},
-		{ID: "C11", Rules: []string{"E-DISC", "E-LATCH"},
-			Explanation: "ErrDisc: every error produced while evaluating is tested or forwarded on every path and never followed by a success return on its non-nil edge.",
-			NotDecided:  "errors that should have been raised (C10)"},
+		{ID: "C03", Rules: []string{"T-P1", "T-P2", "T-P3", "T-P4", "T-DISPATCH", "T-PAREN"},
+			Explanation: "Tables: the precedence table, the Pratt comparison, every right binding power, the projection-stop threshold and the parenthesis clause are evaluated from the source and compared with the specification's precedence order; the lexer's rune dispatch is folded for every rune (whitespace produces no token and has no effect).",
+			NotDecided:  "that each nud/led assembles the right node for its tokens (partly S-SHAPE); parseDotRHS returning a multi-select without the infix loop (a[*].[x,y].c) — reference behaviour, documented"},
+		{ID: "C04", Rules: []string{"E-DISC/parse", "S-EMPTY", "S-SHAPE", "P-LISTS", "P-PARSE", "P-CALLEE", "T-TOKENS", "T-P1", "T-DISPATCH", "T-SCAN", "T-DECODE"},
+			Explanation: "ErrDisc on lexer/parser (no lexer/parser error is dropped or turned into success), no (empty node, nil) return, list-loop event languages, Parse ends at EOF, callee is an identifier, token tables agree, the rune dispatch and scanner predicates equal the lexical grammar, literals are decoded from their whole text.",
+			NotDecided:  "language equality as a whole: slice-bracket grammar ([:1 2], [0:1:2:]), completeness of nud/led acceptance sets ((a)(b), a[*][b])"},
+		{ID: "C11", Rules: []string{"E-DISC/eval", "E-LATCH", "P-SLICE0"},
+			Explanation: "ErrDisc: every error produced while evaluating is tested or forwarded on every path and never followed by a success return on its non-nil edge; latched comparison failures are reported after the sort; a zero slice step is raised for every array.",
+			NotDecided:  "errors that should have been raised by type checks (C10); which operands must be evaluated at all (C01/C07 threading rules)"},
+		{ID: "C17", Rules: []string{"A-COMPILE", "A-MUST", "A-SYNERR", "S-EMPTY", "E-DISC/parse", "T-DISPATCH", "T-SCAN"},
+			Explanation: "Compile returns exactly one of (fresh expression, nil) / (nil, non-nil error); MustCompile panics exactly on Compile's failure edge with a message naming the expression; every SyntaxError literal takes Expression from the stored input and Offset from a cursor or token position; HighlightLocation is Expression + newline + Offset spaces + caret; no parser function returns the empty node with a nil error.",
+			NotDecided:  "0 <= Offset <= len(Expression) numerically (needs the lexer's cursor invariant, a declared residual shared with C05); rune/byte semantics of the caret line beyond its construction from Offset"},
+		{ID: "C19", Rules: []string{"J-RUN", "E-DISC/cli"},
+			Explanation: "PathLang/provenance on cmd/jpgo: status 0 outside -ast only after Parse, read, json.Unmarshal, jmespath.Search and Marshal succeeded and exactly one stdout print of that serialised Search result; every failure edge returns non-zero (ErrDisc); main is os.Exit(run()).",
+			NotDecided:  "behaviour of encoding/json, flag, os and fmt themselves"},
+		{ID: "C14", Rules: []string{"T-DISPATCH", "T-SCAN", "T-DECODE"},
+			Explanation: "The lexer's dispatch and the identifier/number scanners are folded for every rune and compared with the lexical grammar; quoted identifiers and JSON literals are decoded by encoding/json from exactly the delimited text; raw strings and identifiers carry their text unchanged.",
+			NotDecided:  "the three escape layers as a value-level round trip over all strings (consumeUntil/consumeRawStringLiteral cursor arithmetic)"},
 	}
 }
